@@ -48,10 +48,12 @@ CHECKS = {
         text="Coq theorem C13_run_is_spec: for every chunk size > 0, every file and EVERY sequence of read_bytes_at / read_bytes_at_until calls, each call returns exactly "
              "what a state-free specification of the file says (exact bytes, delimited reads up to the first delimiter inside min(range, 4096), in-bounds reads succeed, "
              "overflowing/out-of-bounds reads fail, nothing panics) - hence independence from history and chunk alignment; C13_read_exact/_until_exact/_in_bounds_succeeds spell the spec out; "
-             "C13_constants re-checks the regenerated constants. Tied to samply-symbols by running FileContentsWithChunkedCaching on generated call sequences and evaluating spec + model in Coq. "
+             "C13_schedule_independent: taking each call as one atomic step (what the two mutexes provide), under ANY interleaving of several threads' calls every thread gets the specified answers to its own calls; "
+             "C13_constants re-checks the regenerated constants. Tied to samply-symbols by running FileContentsWithChunkedCaching on generated call sequences and evaluating spec + model in Coq, "
+             "and by a multi-threaded stream (real threads released together onto one fresh cache, hundreds of rounds per case, every answer against the specification). "
              "Two defects (F-C13a/b) were found, fixed by fix: commits and stay in corpus/C13.",
         note="Trusted: Coq kernel; RangeMap overwrite semantics as modelled; harness h_symbols (byte comparison against the in-memory file). "
-             "Not proved: behaviour under concurrent readers (mutex scopes argued, not modelled), FrozenVec slice validity.",
+             "Not proved: that the mutex scopes make each call atomic (assumed by C13_schedule_independent; the lock scope is pinned and the multi-threaded stream samples real schedules, which is testing), FrozenVec slice validity.",
         technique="Coq proof (state invariant + refinement of a state-free specification, by induction over the call sequence) + differential correspondence run evaluated by vm_compute",
         design="4/C13"),
     "C02": dict(
